@@ -218,8 +218,28 @@ StepStart ==
             "all runs in one trace file must share schedule and universe")
   /\ cur' = InitState /\ hist' = EmptyFn /\ txh' = {} /\ dig' = EmptyFn /\ UNCHANGED nIss
 
+\* A block without any content of the tracked chains, at a height where nothing is scheduled, and after which the database shows
+\* no change at all: the specification's step is the identity as well (no rates -> no held conversion is considered, no payout, no
+\* adjustment), so the full item-by-item evaluation is skipped. Any observed change sends the block through the full evaluation.
+Scheduled(h) == h % 144 = 0 \/ \E k \in DOMAIN Hdr.sched : TAct(k) = h \/ TAct(k) + 1 = h
+QuietBlock(in, ob) ==
+  /\ Len(in.entries) = 0 /\ Len(in.burns) = 0 /\ ~in.opr.present /\ ~in.spr.present /\ ~Scheduled(in.h)
+  /\ ~ob.rated /\ Len(ob.hist) = 0 /\ Len(ob.holding) = 0 /\ Len(ob.rel) = 0 /\ ~ob.bank.present /\ Len(ob.winners) = 0
+  /\ ~ob.snapChanged /\ Len(ob.outside) = 0 /\ ~ob.gradeRow /\ ob.synced = in.h
+  /\ ObsBal(ob.bal) = cur.bal
+  /\ "api" \notin DOMAIN Tr[l]
+
+StepQuiet ==
+  /\ Tr[l].ev = "Block" /\ QuietBlock(Tr[l].in, Tr[l].obs)
+  /\ LET ob == Tr[l].obs
+         immIss == IF \E x \in DOMAIN dig : x \notin DOMAIN ob.rateDigests \/ ob.rateDigests[x] # dig[x]
+                   THEN {<<"C12", <<"rates recorded for an earlier height changed or disappeared", Tr[l].in.h,
+                                   {x \in DOMAIN dig : x \notin DOMAIN ob.rateDigests \/ ob.rateDigests[x] # dig[x]}>>>>} ELSE {}
+     IN  /\ Report(l, immIss) /\ nIss' = nIss + Cardinality(immIss) /\ dig' = ob.rateDigests
+  /\ UNCHANGED <<cur, hist, txh>>
+
 StepBlock ==
-  /\ Tr[l].ev = "Block"
+  /\ Tr[l].ev = "Block" /\ ~QuietBlock(Tr[l].in, Tr[l].obs)
   /\ LET e == Tr[l]
          in == e.in
          ob == e.obs
@@ -266,7 +286,7 @@ StepOther ==
   /\ UNCHANGED <<cur, hist, txh, nIss, dig>>
 
 Next == /\ l <= Len(Tr)
-        /\ (StepStart \/ StepBlock \/ StepRestart \/ StepOther)
+        /\ (StepStart \/ StepQuiet \/ StepBlock \/ StepRestart \/ StepOther)
         /\ l' = l + 1
 
 Spec == Init /\ [][Next]_vars
